@@ -12,4 +12,4 @@ def run(tier, seed, replay=None):
         assumptions=["external events serialised; concurrent completions: see the atomic-level parts", "leaves obey the sender contract (complete once)"],
         trusted_extra=["harness/evt/evt.cpp", "tools/evt.py", "g++ 12, ASan/UBSan"],
         explanation="Theorems (Props/C01): root_at_most_once (any expression, any leaf script, ANY event sequence incl. nonsense events: at most one completion signal), "
-                    "root_silent_before_start (no output and no signal before start / if never started), built on signal_finishes + finished_inert + idle_silent for every algorithm clause.")
+                    "root_silent_before_start (no output and no signal before start / if never started), no_lost_completion (a running operation always has a pending leaf below it: coherence invariant Coh proved for every clause, Calc/Coh.lean), finishing_signals / start_finishing_signals (becoming finished = signalling), built on signal_finishes + finished_inert + idle_silent.")
